@@ -99,7 +99,7 @@ theorem pyValidate_raised_src_atomic (t : TraitType) (v : Val) (e : Exc) (hs : t
     (hn : t.isNoFast = false) (h : pyValidate E t v = .raised e) : Src E e := by
   cases t <;> simp [TraitType.subs, TraitType.isNoFast] at hs hn <;>
     simp only [pyValidate, pyCastNumeric, pyCastAny, pyEnumValidate, pyMapValidate, pyInstanceValidate,
-      pyCoerceValidate, stringValidate, completeValue, stringRun, ← asInteger_eq_py] at h
+      pyCoerceValidate, stringValidate, completeValue, stringRun, arrayValidate, ← asInteger_eq_py] at h
   all_goals (repeat' split at h)
   all_goals (try (cases h; done))
   all_goals (try (simp only [Res.raised.injEq] at h; subst h))
